@@ -107,6 +107,120 @@ def cheap_state():
             len(awkward.behavior), id(warnings.showwarning))
 
 
+class FilterWriteWatch:
+    """Observes writes to the process-wide warnings filters made *during* a vector call (warnings.catch_warnings is a
+    save/modify/restore of a process-wide list and is not thread-safe on this interpreter), and can replay a call in
+    two threads under the one schedule in which such a temporary write leaks: A enters and modifies, B enters (saving
+    A's modified filters), A leaves, B leaves (restoring what it saved)."""
+
+    T = 20.0
+
+    def __init__(self):
+        self.lock = threading.Lock()
+        self.watching = None      # thread ident whose entries are recorded
+        self.entries = []         # (filename, line) of catch_warnings entries during the watched call
+        self.roles = {}           # thread ident -> 'A' | 'B' (forced schedule)
+        self.gated = {}           # id(catch_warnings instance) -> role
+        self.ev = {}
+        self.timeouts = 0
+        self._enter = warnings.catch_warnings.__enter__
+        self._exit = warnings.catch_warnings.__exit__
+        self._simple = warnings.simplefilter
+        self._filterw = warnings.filterwarnings
+        watch = self
+
+        def enter(cw):
+            me = threading.get_ident()
+            role = watch.roles.pop(me, None)
+            if role == "B" and not watch.ev["A_inside"].wait(watch.T):
+                watch.timeouts += 1
+            out = watch._enter(cw)
+            if watch.watching == me:
+                fr = sys._getframe(1)
+                watch.entries.append(("catch_warnings", fr.f_code.co_filename, fr.f_lineno))
+            if role:
+                watch.gated[id(cw)] = role
+                if role == "B":
+                    watch.ev["B_entered"].set()
+            return out
+
+        def exit_(cw, *exc):
+            role = watch.gated.pop(id(cw), None)
+            if role == "A":
+                # everything A does inside its block is done: now let B save the filters as A left them
+                watch.ev["A_inside"].set()
+                if not watch.ev["B_entered"].wait(watch.T):
+                    watch.timeouts += 1
+            if role == "B" and not watch.ev["A_exited"].wait(watch.T):
+                watch.timeouts += 1
+            out = watch._exit(cw, *exc)
+            if role == "A":
+                watch.ev["A_exited"].set()
+            return out
+
+        def simple(*a, **k):
+            if watch.watching == threading.get_ident():
+                fr = sys._getframe(1)
+                watch.entries.append(("simplefilter", fr.f_code.co_filename, fr.f_lineno))
+            return watch._simple(*a, **k)
+
+        def filterw(*a, **k):
+            if watch.watching == threading.get_ident():
+                fr = sys._getframe(1)
+                watch.entries.append(("filterwarnings", fr.f_code.co_filename, fr.f_lineno))
+            return watch._filterw(*a, **k)
+        self._p = (enter, exit_, simple, filterw)
+
+    def install(self):
+        warnings.catch_warnings.__enter__, warnings.catch_warnings.__exit__ = self._p[0], self._p[1]
+        warnings.simplefilter, warnings.filterwarnings = self._p[2], self._p[3]
+
+    def uninstall(self):
+        warnings.catch_warnings.__enter__, warnings.catch_warnings.__exit__ = self._enter, self._exit
+        warnings.simplefilter, warnings.filterwarnings = self._simple, self._filterw
+
+    def observe(self, f):
+        """run f() in this thread; -> (outcome, entries recorded during the call)"""
+        self.entries = []
+        self.watching = threading.get_ident()
+        try:
+            f()
+            outcome = "returned"
+        except BaseException as e:
+            outcome = type(e).__name__
+        finally:
+            self.watching = None
+        return outcome, list(self.entries)
+
+    def sandwich(self, f):
+        """two threads run f() with their first catch_warnings blocks interleaved A-in, B-in, A-out, B-out;
+        -> (filters before, filters after, timed_out)"""
+        self.ev = {k: threading.Event() for k in ("A_inside", "B_entered", "A_exited")}
+        self.gated = {}
+        self.timeouts = 0
+        before = list(warnings.filters)
+
+        def run(role):
+            self.roles[threading.get_ident()] = role
+            try:
+                f()
+            except BaseException:
+                pass
+            finally:
+                self.roles.pop(threading.get_ident(), None)
+                # a thread that never reached a gate must not leave its partner waiting
+                if role == "A":
+                    self.ev["A_inside"].set()
+                    self.ev["A_exited"].set()
+                else:
+                    self.ev["B_entered"].set()
+        ta, tb = threading.Thread(target=run, args=("A",)), threading.Thread(target=run, args=("B",))
+        ta.start(), tb.start()
+        ta.join(3 * self.T), tb.join(3 * self.T)
+        after = list(warnings.filters)
+        return before, after, bool(self.timeouts or ta.is_alive() or tb.is_alive())
+
+
 class StateHook:
     """cheap process-state equality at every dispatch enter/exit (runs on every dispatch of the workload)"""
 
@@ -153,22 +267,38 @@ def run_state(spec, tier, seed, res):
     apply_config(cfg)
     hook = StateHook(res)
     tap.HOOKS.append(hook)
+    watch = FilterWriteWatch()
+    watch.install()
     full0 = snap.state_json(snap.process_state())
     reg0 = snap.state_json(snap.registries_state())
+
+    confirmed = set()
 
     def bracket(label, cell, f):
         before = cheap_state()
         res.evaluations += 1
-        try:
-            with warnings.catch_warnings():
-                # the monitor must not itself alter filters: catch_warnings restores them; state is compared outside
-                pass
-            f()
-            outcome = "returned"
-        except BaseException as e:
-            outcome = type(e).__name__
+        outcome, writes = watch.observe(f)
         after = cheap_state()
         res.count("outcome:" + outcome)
+        if writes:
+            # the call wrote to the process-wide warnings filters while it ran; equality afterwards does not make that
+            # safe under threads: replay it under the one schedule in which a temporary write leaks
+            res.count("calls_that_write_warnings_filters_temporarily")
+            where = sorted({f"{k}@{os.path.relpath(fn, os.environ.get('VERIF_REPO', '/repo')) if fn.startswith(os.environ.get('VERIF_REPO', '/repo')) else os.path.basename(fn)}" for k, fn, ln in writes})
+            key = (label.split(":")[0], tuple(where))
+            if key not in confirmed and len(confirmed) < 40:
+                confirmed.add(key)
+                fb, fa, timed_out = watch.sandwich(f)
+                res.count("forced_two_thread_schedules_run")
+                if timed_out:
+                    res.inconc(f"forced two-thread schedule for {label} timed out")
+                elif [repr(x) for x in fb] != [repr(x) for x in fa]:
+                    res.violation(f"C20/warnings-filters-leak-when-two-threads-overlap-in-call outcome={'returned' if outcome == 'returned' else 'raised'}",
+                                  {"call": label, "cell": cell, "writes": where, "filters_before": len(fb), "filters_after": len(fa),
+                                   "leaked": [repr(x) for x in fa if repr(x) not in {repr(y) for y in fb}][:3],
+                                   "schedule": "A enters catch_warnings and modifies the filters, B enters, A leaves, B leaves (forced with gates on catch_warnings.__enter__/__exit__)"})
+                    warnings.filters[:] = fb  # restore for the remaining checks
+                    getattr(warnings, "_filters_mutated", lambda: None)()
         if before != after:
             res.violation(f"C20/global-state-changed-by-call outcome={'returned' if outcome == 'returned' else 'raised'} config={cfg}",
                           {"call": label, "cell": cell, "before": repr(before), "after": repr(after), "outcome": outcome})
@@ -276,9 +406,20 @@ def run_state(spec, tier, seed, res):
                      ("str-awkward", lambda: str(vector.zip({"x": [[1.0], []], "y": [[2.0], []]}))),
                      ("show-awkward", lambda: vector.zip({"x": [[1.0], []], "y": [[2.0], []]}).tolist()),
                      ("ak.sum", lambda: __import__("awkward").sum(vector.zip({"x": [[1.0], []], "y": [[2.0], []]}), axis=1)),
-                     ("numpy.sum", lambda: numpy.sum(vector.array({"x": [1.0], "y": [2.0]})))):
+                     ("numpy.sum", lambda: numpy.sum(vector.array({"x": [1.0], "y": [2.0]}))),
+                     ("numpy.sum-axis", lambda: numpy.sum(vector.array({"x": [[1.0, 2.0]], "y": [[2.0, 3.0]], "z": [[2.0, 3.0]]}), axis=1, keepdims=True)),
+                     ("numpy.sum-huge", lambda: numpy.sum(vector.array({"x": [1e308, 1e308], "y": [2.0, float("inf")], "z": [0.0, 1.0], "t": [-float("inf"), float("inf")]}))),
+                     ("numpy.sum-bad-axis", lambda: numpy.sum(vector.array({"x": [1.0], "y": [2.0]}), axis=3)),
+                     ("method-sum", lambda: vector.array({"rho": [1.0, 2.0], "phi": [2.0, 0.5], "eta": [0.0, 1.0], "tau": [1.0, 2.0]}).sum()),
+                     ("numpy.count_nonzero", lambda: numpy.count_nonzero(vector.array({"x": [1.0, 0.0], "y": [2.0, 0.0]}))),
+                     ("ak.count_nonzero", lambda: __import__("awkward").count_nonzero(vector.zip({"x": [[1.0], []], "y": [[2.0], []]}), axis=1)),
+                     ("getitem", lambda: vector.array({"x": [1.0, 2.0], "y": [2.0, 3.0]})[1]),
+                     ("pickle", lambda: __import__("pickle").loads(__import__("pickle").dumps(vector.array({"px": [1.0, 2.0], "py": [2.0, 3.0]})))),
+                     ("like", lambda: vector.obj(x=1.0, y=2.0).like(vector.obj(x=1.0, y=2.0, z=3.0))),
+                     ("allclose", lambda: vector.array({"x": [1.0], "y": [2.0]}).allclose(vector.array({"rho": [1.0], "phi": [2.0]})))):
         bracket(label, "constructor", f)
     tap.HOOKS.remove(hook)
+    watch.uninstall()
     if snap.state_json(snap.process_state()) != full0:
         res.violation(f"C20/deep-process-state-changed config={cfg}", {"after_operation": "constructors", "diff": "see replay"})
     if snap.state_json(snap.registries_state()) != reg0:
@@ -519,6 +660,15 @@ def build_call_list(seed, k):
         if r.random() < 0.1 and any(isinstance(x, LVec) for x in cases[0][1]):
             a = [3.5 if isinstance(x0, LVec) else y for x0, y in zip(cases[0][1], a)]  # a call that raises TypeError
         calls.append((f"{op.name}/{dim}/{kind}", (lambda op=op, v=v, a=a: op.call(v, *a))))
+        if kind == "numpy" and r.random() < 0.5:
+            red = r.choice([("numpy.sum", lambda v=v: numpy.sum(v)), ("sum(axis=0,keepdims)", lambda v=v: v.sum(axis=0, keepdims=True)),
+                            ("numpy.count_nonzero", lambda v=v: numpy.count_nonzero(v)), ("repr", lambda v=v: repr(v)), ("getitem", lambda v=v: v[1:3])])
+            calls.append((f"{red[0]}/{dim}/numpy", red[1]))
+        elif kind == "awkward" and r.random() < 0.5:
+            import awkward as ak
+            red = r.choice([("ak.sum", lambda v=v: ak.sum(v, axis=1)), ("ak.count_nonzero", lambda v=v: ak.count_nonzero(v, axis=1)),
+                            ("getitem", lambda v=v: v[0]), ("str", lambda v=v: str(v))])
+            calls.append((f"{red[0]}/{dim}/awkward", red[1]))
     return calls
 
 
@@ -664,6 +814,7 @@ def run_threads(spec, tier, seed, res):
         results[ti] = out
         errstates[ti] = dict(numpy.geterr())
 
+    global_before = ([repr(x) for x in warnings.filters], cheap_state(), snap.state_json(snap.process_state()))
     try:
         sys.setswitchinterval(1e-6)
         mon.set_events(TOOL, mon.events.LINE)
@@ -683,6 +834,13 @@ def run_threads(spec, tier, seed, res):
     if any(t.is_alive() for t in ts):
         res.inconc("thread stress did not finish within the watchdog")
         return
+    global_after = ([repr(x) for x in warnings.filters], cheap_state(), snap.state_json(snap.process_state()))
+    res.evaluations += 1
+    if global_after != global_before:
+        what = "warnings-filters" if global_after[0] != global_before[0] else "process-state"
+        res.violation(f"C20/global-state-changed-by-concurrent-calls what={what}",
+                      {"mode": mode, "filters_before": len(global_before[0]), "filters_after": len(global_after[0]),
+                       "diff": _first_diff(global_before[2], global_after[2]) if global_after[2] != global_before[2] else None})
     want_err = {"divide": "warn", "over": "raise", "under": "ignore", "invalid": "warn"}
     seq_by_name = {c[0]: fp for c, fp in zip(calls, sequential)}
     for ti in range(nthreads):
